@@ -209,6 +209,16 @@ func c20PathCheck(x *core.Ctx, p ast.Path) {
 		x.Violate("path-roundtrip("+kind+")", fmt.Sprintf("%s -> %#v", string(b), back), fmt.Sprintf("%#v", p))
 		return
 	}
+	// decoding into a path value that already holds elements (and spare capacity) gives the decoded path, nothing more
+	reused := append(make(ast.Path, 0, 16), ast.PathName("old"), ast.PathIndex(9), ast.PathName("older"), ast.PathIndex(8), ast.PathName("oldest"), ast.PathIndex(7), ast.PathName("x"))
+	if err := json.Unmarshal(b, &reused); err != nil {
+		x.Violate("path-roundtrip(decode-error:reused-value)", string(b)+": "+err.Error(), "encoded paths decode")
+		return
+	}
+	if !pathEqual(p, reused) {
+		x.Violate("path-roundtrip(reused-value)", fmt.Sprintf("%s -> %#v", string(b), reused), fmt.Sprintf("%#v", p))
+		return
+	}
 	// the generic shape of the encoding: only strings and integers
 	var generic []interface{}
 	if len(p) > 0 {
@@ -440,7 +450,7 @@ func c20Check(x *core.Ctx, c *core.Case) {
 			c20Constructors(x, p)
 		}
 	case "parse":
-		src := &ast.Source{Name: "named-" + c.Get("grammar") + ".graphql", Input: c.Get("src")}
+		src := &ast.Source{Name: c20Name(c.Get("src")) + "-" + c.Get("grammar"), Input: c20MaybeBOM(c.Get("src"))}
 		names := []string{src.Name}
 		// the lexer alone
 		lx := lexer.New(src)
@@ -488,7 +498,7 @@ func c20Check(x *core.Ctx, c *core.Case) {
 		var srcs []*ast.Source
 		names := []string{}
 		for j := 0; j < n; j++ {
-			s := &ast.Source{Name: fmt.Sprintf("part%d.graphql", j), Input: c.Get(fmt.Sprintf("src%d", j)), BuiltIn: (len(c.Get("src0"))+j)%3 == 0}
+			s := &ast.Source{Name: fmt.Sprintf("%s.part%d", c20Name(c.Get("src0")), j), Input: c20MaybeBOM(c.Get(fmt.Sprintf("src%d", j))), BuiltIn: (len(c.Get("src0"))+j)%3 == 0}
 			srcs = append(srcs, s)
 			names = append(names, s.Name)
 		}
@@ -504,14 +514,15 @@ func c20Check(x *core.Ctx, c *core.Case) {
 		if err != nil {
 			return
 		}
-		doc, perr := parser.ParseQuery(&ast.Source{Name: "request.graphql", Input: c.Get("doc")})
+		reqName, dsrc := c20Name(c.Get("doc")), c20MaybeBOM(c.Get("doc"))
+		doc, perr := parser.ParseQuery(&ast.Source{Name: reqName, Input: dsrc})
 		if perr != nil {
-			c20Error(x, "parse-query", perr, []string{"request.graphql"}, false)
+			c20Error(x, "parse-query", perr, []string{reqName}, false)
 			return
 		}
 		errs := validator.Validate(schema, doc)
 		for _, e := range errs {
-			c20Error(x, "validate", e, []string{"request.graphql"}, true)
+			c20Error(x, "validate", e, []string{reqName}, true)
 		}
 		c20List(x, "validate", errs)
 		// a document with very many errors: whatever the library does about the volume, each object it returns is an error
@@ -523,12 +534,12 @@ func c20Check(x *core.Ctx, c *core.Case) {
 				fmt.Fprintf(&b, "unknown%d ", i)
 			}
 			b.WriteString("}")
-			if md, perr := parser.ParseQuery(&ast.Source{Name: "request.graphql", Input: b.String()}); perr == nil {
+			if md, perr := parser.ParseQuery(&ast.Source{Name: reqName, Input: b.String()}); perr == nil {
 				many := validator.Validate(schema, md)
 				x.Count("many_error_documents")
 				x.Max("errors_in_one_list", int64(len(many)))
 				for _, e := range many {
-					c20Error(x, "validate-many", e, []string{"request.graphql"}, true)
+					c20Error(x, "validate-many", e, []string{reqName}, true)
 				}
 				c20List(x, "validate-many", many)
 			}
@@ -539,11 +550,11 @@ func c20Check(x *core.Ctx, c *core.Case) {
 			for _, std := range []string{"FieldsOnCorrectType", "KnownArgumentNames", "KnownTypeNames", "ValuesOfCorrectType"} {
 				variants = append(variants, c18Variants[std])
 			}
-			doc3, _ := parser.ParseQuery(&ast.Source{Name: "request.graphql", Input: c.Get("doc")})
+			doc3, _ := parser.ParseQuery(&ast.Source{Name: reqName, Input: dsrc})
 			errs3 := validator.Validate(schema, doc3, variants...)
 			x.Count("variant_rule_validations")
 			for _, e := range errs3 {
-				c20Error(x, "validate-without-suggestions", e, []string{"request.graphql"}, true)
+				c20Error(x, "validate-without-suggestions", e, []string{reqName}, true)
 			}
 			c20List(x, "validate-without-suggestions", errs3)
 		}
@@ -552,11 +563,11 @@ func c20Check(x *core.Ctx, c *core.Case) {
 			ri := int(core.HashString(c.Get("doc")) % uint64(len(c18Standard)))
 			rule := c18Standard[ri]
 			validator.ReplaceRule(rule.Name, rule.RuleFunc)
-			doc2, _ := parser.ParseQuery(&ast.Source{Name: "request.graphql", Input: c.Get("doc")})
+			doc2, _ := parser.ParseQuery(&ast.Source{Name: reqName, Input: dsrc})
 			errs2 := validator.Validate(schema, doc2)
 			x.Count("replace_rule_sequences")
 			for _, e := range errs2 {
-				c20Error(x, "validate-after-ReplaceRule", e, []string{"request.graphql"}, true)
+				c20Error(x, "validate-after-ReplaceRule", e, []string{reqName}, true)
 			}
 			if serializeErrs(errs2) != serializeErrs(errs) {
 				x.Violate("validate-after-ReplaceRule:differs", serializeErrs(errs2), serializeErrs(errs))
@@ -616,4 +627,19 @@ func c20TinySchema() *ast.Schema {
 		c20Tiny, _ = gqlparser.LoadSchema(&ast.Source{Name: "tiny.graphql", Input: "type Query { a: Int b(x: Int): String }"})
 	}
 	return c20Tiny
+}
+
+// c20Name picks the name of a source from the text it holds: plain names and names that a path cleaner, a URL parser or an
+// encoder might want to "tidy" - the error must carry the name as given.
+func c20Name(text string) string {
+	names := []string{"request.graphql", "./ops//q.graphql", "a/../q.graphql", "dir/", "http://host//x.graphql?y=1#z", "ünï code.graphql", "C:\\x\\y.graphql", " lead.graphql ", "q\"uote.graphql"}
+	return names[core.HashString(text)%uint64(len(names))]
+}
+
+// c20MaybeBOM puts a byte order mark in front of one text in five (it is ignored by the lexer; the source keeps its name).
+func c20MaybeBOM(text string) string {
+	if core.HashString(text)%5 == 0 && !strings.HasPrefix(text, "\uFEFF") {
+		return "\uFEFF" + text
+	}
+	return text
 }
